@@ -175,13 +175,79 @@ def real_pool_case(args):
         pop, err = [], type(ex).__name__
     T.REC.delay = None
     calls = T.REC.load()
+    bypid = T.load_by_pid(path) if path else {}
     if path:
         with contextlib.suppress(OSError):
             os.unlink(path)
     ids = {}
     ev = [ids.setdefault(_key(c[1]), len(ids) + 1) for c in calls]
     ag = [ids.setdefault(_key(a.position), len(ids) + 1) for a in pop]
-    return {"kind": "pool", "mode": mode, "workers": workers, "K": K, "evals": ev, "agents": ag, "error": err}
+    rec = {"kind": "pool", "mode": mode, "workers": workers, "K": K, "evals": ev, "agents": ag, "error": err}
+    if bypid:
+        # items are numbered by the order in which the parent gathered them; a worker's log refers to the item whose
+        # agent has the position it evaluated (duplicates are consumed in order; an evaluation nobody received is item K+1)
+        pool = {}
+        for k, a in enumerate(pop):
+            pool.setdefault(_key(a.position), []).append(k + 1)
+        wl = []
+        for pid_, xs in sorted(bypid.items()):
+            row = []
+            for x in xs:
+                lst = pool.get(_key(x), [])
+                row.append(lst.pop(0) if lst else K + 1)
+            wl.append(row)
+        rec["il"] = {"workers": wl, "gathered": list(range(1, len(pop) + 1))}
+    return rec
+
+
+def interleavings(chk: Check, recs: list[dict]):
+    """TracePoolIL.tla: per-process logs of real process pools; TLC chooses the interleaving (accepted iff one exists)"""
+    if not recs:
+        return
+    d = tlc.workdir("poolil")
+
+    def one(k):
+        r = recs[k]
+        il = r["il"]
+        W = max(1, len(il["workers"]))
+        tf, cfgf = d / f"t{k}.json", d / f"t{k}.cfg"
+        tf.write_text(json.dumps(il))
+        cfgf.write_text(f"SPECIFICATION TSpec\nCONSTANTS\n  K = {r['K']}\n  W = {W}\n  Mode = \"reseed\"\n  Dev = \"none\"\n"
+                        "INVARIANT ExactlyOnce\nINVARIANT NeverTwice\nINVARIANT DistinctDraws\nPOSTCONDITION Accepted\nCHECK_DEADLOCK FALSE\n")
+        res = tlc.run("TracePoolIL.tla", str(cfgf), env={"TRACE_FILE": str(tf)}, workers=1, tag=f"poolil{k}", timeout=600)
+        return res
+    import concurrent.futures as _cf
+    with _cf.ThreadPoolExecutor(6) as ex:
+        futs = {k: ex.submit(one, k) for k in range(len(recs))}
+    accepted = 0
+    for k, f in futs.items():
+        try:
+            res = f.result()
+            chk.states += res.states
+            chk.transitions += res.states
+            accepted += 1
+        except tlc.MachineryError as e:
+            msg = str(e)
+            if "Postcondition Accepted" in msg and "is false" in msg:
+                chk.violation("C11.interleaving", {"kind": "pool", "mode": "process"},
+                              {"record": recs[k], "why": "no interleaving of the per-process logs is a behaviour of Pool.tla"})
+            else:
+                chk.machinery.append(msg[:1500])
+    chk.traces += len(recs)
+    chk.extra["process_pool_traces_with_tlc_chosen_interleaving"] = {"traces": len(recs), "accepted": accepted}
+    # canary: a result gathered twice cannot be explained by any interleaving
+    c = json.loads(json.dumps(recs[0]))
+    c["il"]["gathered"][-1] = c["il"]["gathered"][0]
+    tf, cfgf = d / "canary.json", d / "canary.cfg"
+    tf.write_text(json.dumps(c["il"]))
+    cfgf.write_text((d / "t0.cfg").read_text())
+    try:
+        tlc.run("TracePoolIL.tla", str(cfgf), env={"TRACE_FILE": str(tf)}, workers=1, tag="poolil-canary", timeout=600)
+        chk.canary("C11.interleaving#dup", False, "a result gathered twice was explained by some interleaving")
+    except tlc.MachineryError as e:
+        chk.canary("C11.interleaving#dup", "Postcondition Accepted" in str(e), "a result gathered twice")
+    import shutil
+    shutil.rmtree(d, ignore_errors=True)
 
 
 def main(chk: Check):
@@ -228,6 +294,7 @@ def main(chk: Check):
     chk.sample(records[0])
     chk.sample(records[-1])
     chk.extra["forced_orders"] = {str(k): len(v) for k, v in orders.items()}
+    interleavings(chk, [r for r in records if r.get("il") and 2 <= r["K"] <= 8][: (40 if thorough else 12)])
     # guarantees of whole runs in pooled modes (TracePop verdicts of the corpus)
     v = corpus.corpus(chk.tier, chk.seed)
     recs = {r["id"]: r for r in v["records"]}
